@@ -35,7 +35,7 @@ def mir_part(res):
     from . import mir_obligations as O
     text = M.dump_mir()
     fns, consts = M.parse_functions(text), M.parse_consts(text)
-    obs = O.c12_layout(fns, consts) + O.c12_insert(fns, consts) + O.c12_xml_attributes(fns, consts)
+    obs = O.c12_layout(fns, consts) + O.c12_insert(fns, consts) + O.c12_xml_attributes(fns, consts) + O.c12_item_and_flow(fns, consts)
     cov = res.coverage
     known = cov.setdefault('known_finding_obligations', [])
     for ob in obs:
